@@ -2,7 +2,7 @@
 C11 — A timeout is a budget for the whole blocking operation.
 
 real run : sessions of blocking calls on the REAL StreamEndpoint / TCPNetworkClient (plain and TLS flavour, copying and
-           buffered receive path), ClientRecvIterator and SocketDatagramTransport, over scripted sockets, a scripted
+           buffered receive path), ClientRecvIterator, SocketDatagramTransport and UDPNetworkClient, over scripted sockets, a scripted
            selector, a scripted lock and a virtual clock (vlib/c04_env.py, vlib/c11_env.py): arrival schedules
            (drip-feed, bursts, spurious readiness, retry-interval wake-ups, select over-sleep), timeouts 0 / finite / None.
 model run: the same session through the Lean model (Model/Retry.lean, Model/Send.lean, Model/Timeout.lean); the receive
@@ -29,7 +29,7 @@ ID = "C11"
 CLAIMED = True
 TITLE = "A timeout is a budget for the whole blocking operation"
 REQUIRED_THEOREMS = ["C11_retry_budget", "C11_zero_never_waits", "C11_timeout_only_if_blocked", "C11_receive_budget",
-                     "C11_send_budget", "C11_lock_included", "C11_iter_budget"]
+                     "C11_send_budget", "C11_lock_included", "C11_iter_budget", "C11_udp_client_budget"]
 LEVEL_TEXT = (
     "Machine-checked proof (Lean 4) on a statement-by-statement model of _retry, ElapsedTime.recompute_timeout, "
     "lock_with_timeout, the receive loop of the stream endpoint, send_all / the sendmsg loop and ClientRecvIterator: for every "
@@ -178,8 +178,8 @@ def _account(call: dict):
             waited += min(wv, el)
             over += max(0, el - wv)
             over_max = max(over_max, max(0, el - wv))
-        elif p[0] == "lock" and p[1] == "wait":
-            lk = op.get("lock", ["free"])
+        elif p[0] in ("lock", "olock") and p[1] == "wait":
+            lk = op.get("lock" if p[0] == "lock" else "olock", ["free"])
             d = 0 if lk[0] == "free" else lk[1]
             if p[2] == "inf":
                 unbounded = unbounded or d > 0
@@ -210,6 +210,10 @@ def oracle(case: dict, real: list[str]) -> str | None:
         waited, over, proc, lockwait, nsel, consumed, ret, tm, unbounded = _account(call)
         if ret is None or tm is None:
             return f"call without outcome: {call['lines'][-3:]}"
+        for ln in call["lines"]:
+            if ln.endswith(" release-foreign"):
+                return ("the call released a lock it had not acquired while another thread holds it (threading.Lock has no owner "
+                        "check): the other thread's critical section is broken open")
         # retry_interval: with a finite retry interval every select() is bounded by it whatever the timeout (also None) - that
         # is how a would-block condition which the descriptor never signals is still re-tried (and how the remaining budget is
         # re-examined); an unbounded select() there blocks for ever
@@ -249,8 +253,11 @@ def oracle(case: dict, real: list[str]) -> str | None:
                 return (f"call took {tm} ticks with a timeout of {T} (+ processing {proc}): the over-sleeps of several select() "
                         f"calls add up ({over} in total, {getattr(_account, 'last_over_max', over)} at most for one): "
                         "the measured waiting time is not what is deducted from the budget")
-            if T == 0 and (nsel or any(ln.startswith("lock wait") for ln in call["lines"])):
+            if T == 0 and (nsel or any(ln.startswith(("lock wait", "olock wait")) for ln in call["lines"])):
                 return "zero timeout but the call waited"
+        if any(ln.endswith(" left-held") for ln in call["lines"]):
+            return ("the call returned but still holds the client's lock: every later call in that direction blocks until its "
+                    "timeout (or for ever)")
         # the lock could not be had within the budget: a legitimate TimeoutError whatever is buffered
         lk = call["op"].get("lock", ["free"])
         lock_failed = False
@@ -344,6 +351,8 @@ def nontrivial(case: dict, real: list[str]) -> str | None:
             tags.add("select")
         elif ln.startswith("lock wait"):
             tags.add("lock")
+        elif ln.startswith("olock"):
+            tags.add("olock")
         elif ln == "ret timeout" or ln == "ret stop":
             tags.add("timeout")
     nr = sum(1 for ln in real if ln.startswith("rcall "))
@@ -382,13 +391,15 @@ def shrink(case: dict):
                 yield {**case, "ops": ops[:i] + [{**op, key: lst[:j] + lst[j + 1:]}] + ops[i + 1:]}
         if op.get("lock", ["free"])[0] != "free":
             yield {**case, "ops": ops[:i] + [{**op, "lock": ["free"]}] + ops[i + 1:]}
+        if op.get("olock", ["free"])[0] != "free":
+            yield {**case, "ops": ops[:i] + [{k_: v_ for k_, v_ in op.items() if k_ != "olock"}] + ops[i + 1:]}
         if op["op"] == "iter" and len(op["nexts"]) > 1:
             yield {**case, "ops": ops[:i] + [{**op, "nexts": op["nexts"][:-1]}] + ops[i + 1:]}
     cfg = case["cfg"]
     never = any(e[0] == "never" for o in ops for x in [o] + o.get("nexts", []) for e in x.get("sel", []))
     if cfg["ri"] is not None and not never:
         yield {**case, "cfg": {**cfg, "ri": None}}
-    if cfg["layer"] == "client" and not any(o["op"] == "iter" for o in ops):
+    if cfg["layer"] == "client" and cfg["kind"] == "stream" and not any(o["op"] == "iter" for o in ops):
         yield {**case, "cfg": {**cfg, "layer": "endpoint"}}
 
 
@@ -485,6 +496,15 @@ def corpus() -> list[dict]:
         nx(0, [["data", "610a620a", 0]], []), nx(1, [], []), nx(0, [["eagain", 0, 0]], [])]}]})
     cs.append({"cfg": _cfg(layer="client"), "ops": [{"op": "iter", "T": None, "nexts": [
         nx(0, [["eagain", 0, 0], ["data", "610a", 0]], [["ready", 30]], ("busy", 7)), nx(0, [["data", "-", 0]], [])]}]})
+    # datagram client: lock + one _retry; the other direction's lock is held by another thread meanwhile
+    dsock = [["eagain", 0, 0], ["data", "6162", 0], ["eagain", 0, 0]]
+    for lock_, T_ in ((["free"], 3), (["busy", 2], 5), (["busy", 6], 5), (["busy", 1], 0), (["busy", 4], None)):
+        cs.append({"cfg": _cfg(kind="dgram", layer="client", bufsize=65536), "ops": [
+            {"op": "recv", "T": T_, "lock": lock_, "olock": ["busy", 50], "sock": dsock, "sel": [["ready", 2], ["ready", 0]]},
+            {"op": "send", "T": T_, "data": "6162", "lock": lock_, "olock": ["busy", 50],
+             "sock": [["eagain", 0, 0], ["sent", 2, 0], ["eagain", 0, 0]], "sel": [["ready", 1], ["ready", 0]]}]})
+    cs.append({"cfg": _cfg(layer="client"), "ops": [_recv(5, drip, [["ready", 2]], lock=["busy", 3]) | {"olock": ["busy", 50]},
+                                                    _recv(0, drip, [["ready", 2]], lock=["free"]) | {"olock": ["busy", 50]}]})
     # datagram transport = one _retry
     cs.append({"cfg": _cfg(kind="dgram", bufsize=64), "ops": [
         {"op": "recv", "T": 3, "sock": [["eagain", 0, 0], ["eintr", 0, 1], ["data", "6162", 0]], "sel": [["ready", 1], ["ready", 2]]},
@@ -556,6 +576,14 @@ def gen_lock(rng):
     return ["free"] if rng.random() < 0.6 else ["busy", rng.choice([0, 1, 2, 3, 5, 9])]
 
 
+def gen_locks(rng) -> dict:
+    """lock of the call's direction + (half of the time) another thread busy in the OTHER direction for d ticks"""
+    out = {"lock": gen_lock(rng)}
+    if rng.random() < 0.5:
+        out["olock"] = ["busy", rng.choice([1, 2, 3, 5, 9, 50])]
+    return out
+
+
 def generate(rng, tier: str, boost: int):
     n = (5000 if tier == "quick" else 40000) * boost
     if boost > 1:
@@ -565,13 +593,17 @@ def generate(rng, tier: str, boost: int):
         ri = rng.choice([None, None, 1, 2, 3])
         no_budget = ri is not None and rng.random() < 0.15     # no time budget x finite retry interval (the clients' default)
         if r < 0.12:
-            cfg = _cfg(kind="dgram", bufsize=64, ri=ri)
+            dclient = rng.random() < 0.5
+            # UDPNetworkClient reads with max_datagram_size = MAX_DATAGRAM_BUFSIZE
+            cfg = _cfg(kind="dgram", layer="client", bufsize=65536, ri=ri) if dclient else _cfg(kind="dgram", bufsize=64, ri=ri)
             ops = []
             for _ in range(rng.randint(1, 4)):
                 T = None if no_budget else rng.choice([None, 0, 1, 2, 3, 5, 8])
                 if rng.random() < 0.7:
                     sock, sel = gen_recv_script(rng, "plain", 64, T, ri, [], dgram=True)
                     ops.append({"op": "recv", "T": T, "sock": sock, "sel": sel})
+                    if dclient:
+                        ops[-1].update(gen_locks(rng))
                 else:
                     sock = [[rng.choice(["eagain", "eintr"]), 0, rng.choice([0, 0, 1])] for _ in range(rng.randint(0, 3))]
                     sock += [["sent", 99, 0]] + [["eagain", 0, 0]] * 2
@@ -581,6 +613,8 @@ def generate(rng, tier: str, boost: int):
                     if not unb and rng.random() < 0.15:
                         sel = [["never", 0] for _ in sock]
                     ops.append({"op": "send", "T": T, "data": "6162", "sock": sock, "sel": sel})
+                    if dclient:
+                        ops[-1].update(gen_locks(rng))
             yield {"cfg": cfg, "ops": ops}
             continue
         layer = "client" if r < 0.45 else "endpoint"
@@ -602,21 +636,21 @@ def generate(rng, tier: str, boost: int):
                 op = {"op": "send", "T": T, "data": bytes(rng.randrange(97, 123) for _ in range(rng.randint(0, 3))).hex(),
                       "sock": [e for e in sock if e[0] not in ("reset", "pipe", "zeroret")] + [["sent", 99, 0]] * 8, "sel": sel + [["ready", 0]] * 2}
                 if layer == "client":
-                    op["lock"] = gen_lock(rng)
+                    op.update(gen_locks(rng))
                 ops.append(op)
             elif k < 0.4 and layer == "client":
                 nexts = []
                 T_it = T if no_budget else rng.choice([0, 1, 2, 3, 5, 8, 13, None])
                 for _ in range(rng.randint(1, 4)):
                     sock, sel = gen_recv_script(rng, flavour, bufsize, T_it, ri, [], allow_end=False)
-                    nexts.append({"gap": rng.choice([0, 0, 1, 3]), "lock": gen_lock(rng),
+                    nexts.append({"gap": rng.choice([0, 0, 1, 3]), **gen_locks(rng),
                                   "sock": sock + _pad_recv(bufsize), "sel": sel})
                 ops.append({"op": "iter", "T": T_it, "nexts": nexts})
             else:
                 sock, sel = gen_recv_script(rng, flavour, bufsize, T, ri, [], allow_end=not dead)
                 op = {"op": "recv", "T": T, "sock": sock + _pad_recv(bufsize), "sel": sel}
                 if layer == "client":
-                    op["lock"] = gen_lock(rng)
+                    op.update(gen_locks(rng))
                 ops.append(op)
         yield {"cfg": cfg, "ops": ops}
     try:
